@@ -3,8 +3,8 @@ CONFIG = {
     "level_text": "Lean theorems (kernel-checked, no sorry/axioms) about a model of the commitment pool written as the Go code writes it (AddVerifiedExecutorCommitment admission, SchedulerCommitment.Add, ProcessCommitments vote counting with early discrepancy detection, the two-call finalization sequence, SchedulerRank/SchedulerIdx) against an independent statement of the rule (MayFinalize / MayAccept / Preferred), for every committee, straggler allowance, commitment history and placement of processing calls. The Go pool is tied to the model on every run by the pooldrv correspondence on the real exported commitment.Pool with real signed commitments; the rule predicates are also evaluated directly on what the real pool accepted and answered. Round-timer bookkeeping of the roothash application (OasisModel/Roothash/Timer.lean: int64 arithmetic of commit/backup timeouts, the timeout queue keyed by height, executorCommit arming, tryFinalizeRound with the discrepancy retry, processRoundTimeouts, EndBlock; the pool enters as an oracle constrained only by the proved pool facts; OasisProofs/Props/C11Timer.lean): a runtime is queued at height t iff its nextTimeout = t ≠ 0 in every reachable state (queue_matches_state), a suspended runtime has no timer, after EndBlock of height h every runtime has nextTimeout = 0 or > h (timer_never_left_expired) and a timer that fires decides the round in that block — finalized, failed, or handed to the backup workers with the timer re-armed strictly in the future (expired_timer_decides), also instantiated with the real pool model (…_pool); hypotheses (consecutive heights, no int64 overflow of height + RoundTimeout*15/10, timeout processing never returns still-waiting) each shown necessary by a witness (gap_loses_timer, overflow_loses_timer, undecided_pool_loses_timer); the seeded change that skipped timers of runtimes registered for finalization is refuted as a witness (skipping_guard_leaves_timer_expired). The same invariant is evaluated on the real application by rhdrv -spec c11.",
     "technique": "Lean 4 proof over a code-shaped model + independent rule predicate; correspondence and spec-on-implementation with the real commitment.Pool",
     "models": ["pool"],
-    "extra_theorem_files": [{"file": "OasisProofs/Props/C11Timer.lean", "namespace": "OasisProofs.C11Timer"}, {"file": "OasisProofs/Props/C11TimerFacts.lean", "namespace": "OasisProofs.C11TimerFacts"}],
-    "regen": [{"kind": "stmtfacts", "out": "StmtFactsRoothashtimer.lean", "args": ["roothashtimer"]}],
+    "extra_theorem_files": [{"file": "OasisProofs/Props/AppStateFacts.lean", "namespace": "OasisProofs.AppStateFacts"}, {"file": "OasisProofs/Props/C11Timer.lean", "namespace": "OasisProofs.C11Timer"}, {"file": "OasisProofs/Props/C11TimerFacts.lean", "namespace": "OasisProofs.C11TimerFacts"}],
+    "regen": [{"kind": "muxfacts", "out": "MuxFacts.lean"}, {"kind": "stmtfacts", "out": "StmtFactsRoothashtimer.lean", "args": ["roothashtimer"]}],
     "lean_sources": ["OasisModel/Roothash", "OasisModel/Proto.lean"] +
                     ["OasisProofs/Helpers/Roothash%s.lean" % n for n in ("Process", "Rank", "Count", "Sound", "Inv", "Final", "Order")],
     "drivers": [
